@@ -52,6 +52,12 @@ fn check_state(rec: &mut Recorder, w: &mut World, st: &St, with_dom: bool, descr
                 let hr = rec.exec(w, &format!("e.hasrole\t{}\t{}\t{}", u, esc(r), df));
                 if hr != "true" { rec.fail("has-role-disagrees", format!("{}: has_role_for_user({}, {}) = {}", descr, u, r, hr)); }
             }
+            // ... and only those: an inherited role (or the name itself) is not a direct role
+            for r in NAMES.iter() {
+                if roles.contains(&r.to_string()) { continue; }
+                let hr = rec.exec(w, &format!("e.hasrole\t{}\t{}\t{}", u, r, df));
+                if hr != "false" { rec.fail("has-role-disagrees", format!("{}: has_role_for_user({}, {}) = {} but the direct roles of {} in {:?} are {:?}", descr, u, r, hr, u, d, roles)); }
+            }
             if roles != refl.roles(u, d) { rec.fail("roles-listing-wrong", format!("{}: roles of {} = {:?} but links say {:?}", descr, u, roles, refl.roles(u, d))); }
             // enforce(u, o, a) <=> [*, o, a] among the implicit permissions
             let mut reqs = vec![];
